@@ -34,6 +34,7 @@ type vpC05Spec struct {
 	n        int
 	labels   []core.BuildLabel
 	deps     [][]bool
+	srcOnly  [][]bool // the edge is a source-only dependency (a label in srcs), not a dep
 	fails    []bool
 	missing  int  // target with an extra dependency on //b:nope, or -1
 	parseErr bool // package b does not parse
@@ -69,7 +70,12 @@ func vpModelParsePackage(state *core.BuildState, label, dependent core.BuildLabe
 		t := core.NewBuildTarget(l)
 		for j := range s.labels {
 			if s.deps[i][j] {
-				t.AddDependency(s.labels[j])
+				if s.srcOnly[i][j] {
+					t.AddSource(s.labels[j])
+					t.AddMaybeExportedDependency(s.labels[j], false, true, false, false)
+				} else {
+					t.AddDependency(s.labels[j])
+				}
 			}
 		}
 		if s.missing == i {
@@ -162,11 +168,13 @@ func vpC05Run() {
 	}
 	s := &vpC05Spec{n: n, labels: names[:n], missing: -1}
 	s.deps = make([][]bool, n)
+	s.srcOnly = make([][]bool, n)
 	s.fails = make([]bool, n)
 	s.calls = make([]int, n)
 	s.finals = make([]int, n)
 	for i := 0; i < n; i++ {
 		s.deps[i] = make([]bool, n)
+		s.srcOnly[i] = make([]bool, n)
 		for j := i + 1; j < n; j++ {
 			s.deps[i][j] = vpNondetBool("edge")
 		}
@@ -176,6 +184,12 @@ func vpC05Run() {
 		// t2 -> t1: a cycle exactly when t1 -> t2 is present too
 		s.deps[2][1] = true
 		cyclic = s.deps[1][2]
+		// either edge of the cycle may be a label in srcs rather than in deps: the
+		// build waits for both kinds
+		s.srcOnly[2][1] = vpNondetBool("back-edge-is-a-source")
+		if cyclic {
+			s.srcOnly[1][2] = vpNondetBool("forward-edge-is-a-source")
+		}
 	}
 	if vpBound("failures") > 0 {
 		switch vpChoice("failure-kind", 4) {
